@@ -151,15 +151,16 @@ def run(prog, R):
     # ---- C10.4 digits, radix, underscores
     if v2:
         ps = [p for p in SymExec(prog, v2).paths() if "__diverged__" not in p.env]
-        ok = False
+        ok, nfs = True, 0
         det = ""
         for p in ps:
             for c in p.calls:
                 if c[0].endswith("from_str_radix"):
+                    nfs += 1
                     a0, a1 = deep_strip(c[1][0]), deep_strip(c[1][1])
                     det = f"from_str_radix({show(a0)[:90]}, {show(a1)[:60]})"
-                    ok = "replace" in show(a0) and ("'_'" in show(a0) or ", 95," in show(a0)) and "split_into_parts" in show(a0) and a1[0] == "cast" and "radix" in show(a1)
-        R.ob("C10.4-digit-string", "value_u128: from_str_radix(text-without-underscores, radix())", ok, v2.at, det)
+                    ok = ok and "replace" in show(a0) and ("'_'" in show(a0) or ", 95," in show(a0)) and "split_into_parts" in show(a0) and a1[0] == "cast" and "radix(self)" in show(a1)
+        R.ob("C10.4-digit-string", "value_u128: from_str_radix(text-without-underscores, radix())", ok and nfs >= 1, v2.at, det)
     sp = prog.body(TE + "IntNumber::split_into_parts")
     if sp:
         # hexadecimal suffix predicate excludes exactly [0-9a-fA-F_]
